@@ -88,6 +88,10 @@ fn model(c: &Case) -> Option<(&'static str, String, u64)> {
     None
 }
 
+pub fn all_inputs(tier: &str) -> Vec<pipe::Input> {
+    cases(tier).iter().map(input_of).collect()
+}
+
 pub fn run(tier: &str, only: Option<&Value>) -> i32 {
     let mut rep = Report::new("C11", tier);
     let all = cases(tier);
